@@ -16,6 +16,8 @@ class BuiltinMixin:
             if not args:
                 raise PyRaise('TypeError', 'unbound method needs a receiver')
             return self.call_builtin_method(args[0], name[8:], list(args[1:]), kw, node)
+        if name.startswith('npstep:'):
+            return self.np_method(f.bound, name[7:], args, kw, node)
         if name.startswith('opq:'):
             return self.call_opq_method(f.bound, name[4:], args, kw, node)
         if name.startswith('opqm:'):
@@ -61,7 +63,7 @@ class BuiltinMixin:
             raise Unsupported(f'builtin {name}')
         return h(args, kw, node)
 
-    SORTS = {'int': INT, 'bool': BOOL, 'bytes': SEQ, 'str': SEQ, 'opq': OPQ, 'seq': SEQ, 'ref': INT}
+    SORTS = {'int': INT, 'bool': BOOL, 'bytes': SEQ, 'str': SEQ, 'opq': OPQ, 'seq': SEQ, 'ref': INT, 'real': z3.RealSort()}
 
     def to_sort(self, v, kind):
         if kind == 'int':
@@ -213,6 +215,8 @@ class BuiltinMixin:
             return self.bi_len([self.st.heap[a.t].f['__store__']], {}, node)
         if a.k == 'obj':
             return self.call_method(a, '__len__', [], {}, node)
+        if a.k == 'earr':
+            return self.np_len(a)
         if a.k == 'opq':
             t = self.ufunc('opq_len', OPQ, INT)(a.t)
             self.assume(t >= 0)
